@@ -460,7 +460,8 @@ func (e *env) creds(class string) []cred {
 		return []cred{{class, true, "Bearer " + fx.unknownTok, "Bearer <unknown>"},
 			{class, true, "Bearer " + rig.AdminToken + "x", "Bearer <admin>x"}, {class, true, "Bearer x" + rig.AdminToken, "Bearer x<admin>"},
 			{class, true, "Bearer " + rig.AdminToken[:len(rig.AdminToken)-1], "Bearer <admin minus last character>"},
-			{class, true, "Bearer " + fx.user + "x", "Bearer <user>x"}, {class, true, "Bearer " + fx.user[:len(fx.user)-1], "Bearer <user minus last character>"}}
+			{class, true, "Bearer " + fx.user + "x", "Bearer <user>x"}, {class, true, "Bearer " + fx.user[:len(fx.user)-1], "Bearer <user minus last character>"},
+			{class, true, "Bearer " + swapCase(fx.user), "Bearer <user, letter case swapped>"}, {class, true, "Bearer " + swapCase(rig.AdminToken), "Bearer <admin, letter case swapped>"}}
 	case clRevoked:
 		return []cred{{class, true, "Bearer " + fx.revoked, "Bearer <revoked>"}}
 	case clUser:
@@ -469,6 +470,19 @@ func (e *env) creds(class string) []cred {
 		return []cred{{class, true, "Bearer " + rig.AdminToken, "Bearer <admin>"}}
 	}
 	return nil
+}
+
+func swapCase(s string) string {
+	b := []byte(s)
+	for i := range b {
+		switch {
+		case b[i] >= 'a' && b[i] <= 'z':
+			b[i] -= 32
+		case b[i] >= 'A' && b[i] <= 'Z':
+			b[i] += 32
+		}
+	}
+	return string(b)
 }
 
 // malformed draws one random malformed Authorization value. Nothing here differs from a
